@@ -503,7 +503,7 @@ func c35Enum(c *lib.Ctx, yield func(c35Case) bool) {
 	batches := lib.Pick(c, []int{2}, []int{1, 2, 3})
 	histsFor := map[int][]string{
 		1: c35Hists("af", lib.Pick(c, 3, 5)),
-		2: c35Hists("af", lib.Pick(c, 3, 4)),
+		2: lib.Pick(c, append(c35Hists("af", 2), "aaa", "aaf", "afa"), c35Hists("af", 4)),
 		3: c35Hists("af", 3),
 	}
 	maxFields := lib.Pick(c, 2, 3)
@@ -573,8 +573,8 @@ func c35Enum(c *lib.Ctx, yield func(c35Case) bool) {
 		{{Kind: "bool"}, {Kind: "string", Tag: "location"}, {Kind: "float64", Tag: "ignore"}},
 	}
 	for _, fs := range shapes {
-		for _, b := range []int{1, 2, 3, 0} {
-			for _, h := range c35Hists("abf", lib.Pick(c, 4, 5)) {
+		for _, b := range lib.Pick(c, []int{1, 2, 0}, []int{1, 2, 3, 0}) {
+			for _, h := range c35Hists("abf", lib.Pick(c, 3, 5)) {
 				if !yield(c35Case{Fields: fs, TwoTab: true, Batch: b, Hist: h, V0: len(h)}) {
 					return
 				}
@@ -589,8 +589,8 @@ func init() {
 		Level: "exploration",
 		Rule: "sequential half. Real datarecording.NewDataRecorder writing a SQLite file on tmpfs; entry types built with reflect.StructOf. " +
 			"(V) each of the 16 allowed field kinds x each of 5 boundary values (0, +-1, min/max of the kind, float extremes; strings: empty, quotes+SQL, unicode, embedded NUL), string also as interned location; " +
-			"(S) every subset of <= 2 distinct kinds x tag variants {none, string as location, last field ignored, both} x batch size {2} (thorough {1,2,3}, via the verif hook VerifSetBatchSize) x every history of <= 3 (thorough: 5 for one kind, 4 for two) {insert, Flush}; thorough also every 3-kind subset (kinds whose single value already fails left out, see notes) x histories of <= 3; " +
-			"(H) two tables sharing the location table: 4 shapes x batch size {1,2,3,default} x every history of <= 4 (thorough 5) {insert ta, insert tb, Flush}. Every history ends with Close; the i-th insert uses the (i+offset)-th lattice value of each field. " +
+			"(S) every subset of <= 2 distinct kinds x tag variants {none, string as location, last field ignored, both} x batch size {2} (thorough {1,2,3}, via the verif hook VerifSetBatchSize) x every history of <= 3 for one kind and {every history of <= 2, aaa, aaf, afa} for two kinds (thorough: <= 5 and <= 4) of {a = insert, f = Flush}; thorough also every 3-kind subset (kinds whose single value already fails left out, see notes) x histories of <= 3; " +
+			"(H) two tables sharing the location table: 4 shapes x batch size {1,2,default} (thorough {1,2,3,default}) x every history of <= 3 (thorough 5) {insert ta, insert tb, Flush}. Every history ends with Close; the i-th insert uses the (i+offset)-th lattice value of each field. " +
 			"Oracle: the file is reopened with database/sql (same driver): per table the multiset of rows (non-ignored columns, numbers compared by value, location IDs resolved through the location table) equals the multiset of inserted entries; location table: IDs distinct, strings distinct, exactly the strings used; no panic. Each case is distinct.",
 		Sharded:     true,
 		MinOutcomes: 10,
